@@ -27,6 +27,11 @@ monadic mode (translate.py docstring).  Rules added here (one per construct; any
               which is checked against the class statements)
   sequences   `tuple(e for i in k)`, `tuple(sorted(e for i in k))` with a raising element -> pyListMapM (+ pySortedNat);
               `{k: v for i in range(n)}` -> pyDictCompM; `{-1: 1, 1: 0}` -> a number dict, `d[v]` -> pyNumDictGet
+  reshapings  whole function bodies are first normalised by exact syntactic equivalences (normalize_whole_body): a local
+              assigned once, at top level, to a static pure expression (`type(p)` of a never-rebound parameter, class
+              references, tuples of them, `in (…)` tests of them) is inlined; `x = helper(args…)` with a private module-level
+              helper that only chooses between returns (if / return tree) on static pure arguments is inlined as the if/else
+              tree of assignments to x; `x = f` with f a module-level one-parameter single-return function is `def x(p): …`
   defaults    the registry lists the expected default of every defaulted parameter; a changed default is a changed
               signature (Untranslatable)
 """
@@ -497,6 +502,147 @@ class FnExt(T.Fn):
         env3 = dict(env)
         env3[s.name] = SQ
         return "let %s : %s := %s;\n%s%s" % (mangle(s.name), lean_ty(SQ), fn, pad, cont(env3))
+
+    # ---- exact syntactic normalisations of a whole function body (before any rule is applied)
+
+    def static_pure(self, n, params):
+        """an expression without effects whose value cannot change during the call: `type(p)` of a never-rebound parameter,
+        a class reference, a tuple of such, `a in (…)` / `a not in (…)` of such"""
+        if isinstance(n, ast.Call):
+            return isinstance(n.func, ast.Name) and n.func.id == "type" and len(n.args) == 1 and not n.keywords \
+                and isinstance(n.args[0], ast.Name) and n.args[0].id in params and "type" not in self.module_names()
+        if isinstance(n, ast.Name):
+            return n.id in CLASS_KIND and n.id not in params
+        if isinstance(n, ast.Attribute):
+            return isinstance(n.value, ast.Name) and n.attr in CLASS_KIND and n.value.id not in params \
+                and n.value.id not in CLASS_KIND
+        if isinstance(n, ast.Tuple):
+            return all(self.static_pure(x, params) for x in n.elts)
+        if isinstance(n, ast.Compare):
+            return len(n.ops) == 1 and isinstance(n.ops[0], (ast.In, ast.NotIn)) and self.static_pure(n.left, params) \
+                and isinstance(n.comparators[0], ast.Tuple) and self.static_pure(n.comparators[0], params)
+        return False
+
+    @staticmethod
+    def substitute(node, sub):
+        """copy of `node` with every load of a name in `sub` replaced by (a copy of) its expression"""
+        import copy
+
+        class S(ast.NodeTransformer):
+            def visit_Name(self, x):
+                if isinstance(x.ctx, ast.Load) and x.id in sub:
+                    return ast.copy_location(copy.deepcopy(sub[x.id]), x)
+                return x
+        return ast.fix_missing_locations(S().visit(copy.deepcopy(node)))
+
+    def plain_helper(self, name, env_names):
+        """the module-level function `name`: bound once by an undecorated `def`, not a registered / tied function, with
+        plain positional parameters only; None otherwise"""
+        if name in env_names or name in self.done or name in T.BUILTINS or not T.hoisted_helper_ok(self.tree, name):
+            return None
+        if any(e["func"] == name and e["file"] == self.e["file"] for e in T.REGISTRY):
+            return None
+        f = [x for x in self.tree.body if isinstance(x, ast.FunctionDef) and x.name == name][0]
+        a = f.args
+        if a.vararg or a.kwarg or a.kwonlyargs or a.defaults or a.posonlyargs or f.decorator_list:
+            return None
+        if any(isinstance(x, (ast.Yield, ast.YieldFrom, ast.Await, ast.Lambda, ast.FunctionDef)) and x is not f
+               for x in ast.walk(f)):
+            return None
+        return f
+
+    @staticmethod
+    def sans_doc(body):
+        return [x for x in body if not (isinstance(x, ast.Expr) and isinstance(x.value, ast.Constant)
+                                        and isinstance(x.value.value, str))]
+
+    def return_tree(self, stmts, target):
+        """statements consisting of `if`s and `return e` only, every path ending in a return  ->  the same tree with
+        `return e` replaced by `target = e` (an `if` whose body always returns continues in its else-branch); else None"""
+        if not stmts:
+            return None
+        s, rest = stmts[0], stmts[1:]
+        if isinstance(s, ast.Return) and s.value is not None and not rest:
+            return [ast.Assign(targets=[ast.Name(id=target, ctx=ast.Store())], value=s.value, lineno=s.lineno)]
+        if isinstance(s, ast.If):
+            a = self.return_tree(s.body, target)
+            if a is None:
+                return None
+            if s.orelse and rest:
+                return None
+            b = self.return_tree(s.orelse or rest, target)
+            if b is None:
+                return None
+            return [ast.If(test=s.test, body=a, orelse=b, lineno=s.lineno)]
+        return None
+
+    def normalize_whole_body(self, stmts):
+        fn = self.fnode
+        params = {a.arg for a in fn.args.args}
+        stores = [x.id for x in ast.walk(fn) if isinstance(x, ast.Name) and isinstance(x.ctx, ast.Store)]
+        stores += [x.name for x in ast.walk(fn) if isinstance(x, (ast.FunctionDef, ast.ClassDef)) and x is not fn]
+        stores += [t for x in ast.walk(fn) if isinstance(x, ast.For) for t in
+                   [y.id for y in ast.walk(x.target) if isinstance(y, ast.Name)]]
+        if any(isinstance(x, (ast.Global, ast.Nonlocal)) for x in ast.walk(fn)):
+            return stmts
+        fixed = {p for p in params if p not in stores}          # parameters never rebound
+        local_names = params | set(stores)
+        # (1) a local assigned exactly once, at the top level of the function, to a static pure expression is inlined
+        sub, out = {}, []
+        for s in stmts:
+            if isinstance(s, ast.Assign) and len(s.targets) == 1 and isinstance(s.targets[0], ast.Name) \
+                    and stores.count(s.targets[0].id) == 1 and s.targets[0].id not in params:
+                v = self.substitute(s.value, sub)
+                if self.static_pure(v, fixed):
+                    sub[s.targets[0].id] = v
+                    continue
+            out.append(self.substitute(s, sub) if sub else s)
+        # (2) `x = helper(a, …)`: a module-level helper that only chooses between returns, called on static pure arguments,
+        #     is inlined as the if/else tree of assignments to x
+        out2 = []
+        for s in out:
+            v = s.value if isinstance(s, ast.Assign) and len(s.targets) == 1 and isinstance(s.targets[0], ast.Name) else None
+            h = self.plain_helper(v.func.id, local_names) if isinstance(v, ast.Call) and isinstance(v.func, ast.Name) else None
+            if h is not None and not v.keywords and len(v.args) == len(h.args.args) \
+                    and all(self.static_pure(a, fixed) for a in v.args):
+                hp = [a.arg for a in h.args.args]
+                body = self.sans_doc(h.body)
+                hstores = {x.id for x in ast.walk(h) if isinstance(x, ast.Name) and isinstance(x.ctx, ast.Store)}
+                tree = self.return_tree(body, s.targets[0].id) if not hstores and len(set(hp)) == len(hp) else None
+                # the helper's own free names must mean the same here: none of them is a local of this function
+                free = {x.id for x in ast.walk(h) if isinstance(x, ast.Name)} - set(hp)
+                if tree is not None and not (free & local_names):
+                    amap = dict(zip(hp, v.args))
+                    out2 += [self.substitute(t, amap) for t in tree]
+                    continue
+            out2.append(s)
+        return self.defs_from_aliases(out2, local_names)
+
+    def defs_from_aliases(self, stmts, local_names):
+        """(3) `x = f` with `f` a module-level one-parameter function whose body is a single return  ==  `def x(p): return e`"""
+        out = []
+        for s in stmts:
+            if isinstance(s, ast.If):
+                s = ast.If(test=s.test, body=self.defs_from_aliases(s.body, local_names),
+                           orelse=self.defs_from_aliases(s.orelse, local_names), lineno=s.lineno)
+            elif isinstance(s, ast.Assign) and len(s.targets) == 1 and isinstance(s.targets[0], ast.Name) \
+                    and isinstance(s.value, ast.Name):
+                h = self.plain_helper(s.value.id, local_names)
+                if h is not None and len(h.args.args) == 1:
+                    body = self.sans_doc(h.body)
+                    free = {x.id for x in ast.walk(h) if isinstance(x, ast.Name)} - {h.args.args[0].arg}
+                    if len(body) == 1 and isinstance(body[0], ast.Return) and body[0].value is not None \
+                            and not (free & local_names):
+                        s = ast.FunctionDef(name=s.targets[0].id, args=h.args, body=body, decorator_list=[], returns=None,
+                                            lineno=s.lineno, type_params=[])
+            out.append(s)
+        return out
+
+    def body_statements(self):
+        stmts = T.Fn.body_statements(self)
+        if "loop_body" in self.e or "after" in self.e:
+            return stmts
+        return self.normalize_whole_body(stmts)
 
     # ---- signature: defaults are part of it
 
